@@ -234,7 +234,11 @@ func (i *Index) SkipUnless(patterns []string) {
 	for _, e := range i.Entries {
 		var include bool
 		for _, pattern := range patterns {
-			if strings.HasPrefix(e.Name, pattern) {
+			// A pattern names a directory: it covers what is below it, not
+			// every path that merely starts with the same characters
+			// ("a" must not cover "ab/y", nor "a/b" cover "a/bc/v").
+			dir := strings.TrimSuffix(pattern, "/")
+			if strings.HasPrefix(e.Name, dir+"/") || (e.Name == pattern && dir == pattern) {
 				include = true
 				break
 			}
